@@ -64,4 +64,70 @@ def check_C03(pid, tier, seed, verdict):
                  "value space (ids, lengths, contents) sampled at boundaries and at random, structure exhaustive at small scale"]
 
 
-CHECKS = {"C03": check_C03}
+# ------------------------------------------------------------------------------------- C04 / C05
+def _padding(pid, tier, seed, verdict):
+    thorough = tier == "thorough"
+    mcs = [mc_must_hold(pid, verdict, "MC_Padding.tla", "MC_Padding3.cfg" if thorough else "MC_Padding.cfg")]
+    g = V.run_gen(pid, "MC_Padding.tla", "Gen_Padding3.cfg" if thorough else "Gen_Padding.cfg", timeout_s=1800)
+    mcs.append(g)
+    scs = V.sample(g["scenarios"], 8000 if thorough else 700, seed)
+    sp = os.path.join(V.workdir(pid), "gen.scn")
+    V.write_scenarios(sp, scs)
+    run = V.run_harness(pid, "padding", seed, tier, sp)
+    res = V.run_trace(pid, "Trace_Padding.tla", "Trace_Padding.cfg", run["trace"])
+    return mcs, g, scs, run, res
+
+
+PADDING_WHY_C05 = ("write lengths of this packet are not permitted", "padding emitted in a packet that must not be padded",
+                   "preamble does not carry")
+
+
+def _padding_split(res, want_c05):
+    """C05 owns the shape of the writes (and the preamble); C04 owns well-formedness/invisibility/failure."""
+    keep = []
+    for b in res["bad"]:
+        is_c05 = any(b["why"].startswith(w) for w in PADDING_WHY_C05)
+        if is_c05 == want_c05:
+            keep.append(b)
+    out = dict(res)
+    out["bad"] = keep
+    return out
+
+
+def check_C04(pid, tier, seed, verdict):
+    mcs, g, scs, run, res = _padding(pid, tier, seed, verdict)
+    mine = _padding_split(res, False)
+    verdict.add_trace_result("padding", mine, run)
+    cnt = res["cnt"]
+    V.log(f"[{pid}] trace: {res['lines']} events, {cnt['scn']} scenarios, {cnt['packet']} packets, "
+          f"bad(C04)={len(mine['bad'])} bad(other)={len(res['bad']) - len(mine['bad'])}")
+    cov = _cov(mcs, cnt["scn"], cnt["nontrivial"],
+               "scenario = one accepted scheme (random spelling: reversed ranges, junk, missing lines, sizes up to 200000) "
+               "+ one sequence of API calls on a real Session over SimPipe, or one TLC-generated (line, payload, draws) "
+               "behaviour with forced draws; every packet (bytes up to a flush) is parsed by an independent parser and "
+               "judged by Trace_Padding; non-trivial = scenarios with at least one accepted packet event",
+               V.sample_descrs(run["descr"]), True,
+               dict(behaviours_generated=len(g["scenarios"]), behaviours_replayed=len(scs), trace_events=res["lines"],
+                    event_counts=cnt))
+    return cov, ["single caller: packet boundaries are flushes", "sizes >= 2^31 are exercised under C20 (TLC integers are 32 bit)",
+                 "payload equality judged in the harness against what it submitted"]
+
+
+def check_C05(pid, tier, seed, verdict):
+    mcs, g, scs, run, res = _padding(pid, tier, seed, verdict)
+    mine = _padding_split(res, True)
+    verdict.add_trace_result("padding", mine, run)
+    cnt = res["cnt"]
+    V.log(f"[{pid}] trace: {res['lines']} events, {cnt['scn']} scenarios, {cnt['packet']} packets, "
+          f"bad(C05)={len(mine['bad'])} bad(other)={len(res['bad']) - len(mine['bad'])}")
+    cov = _cov(mcs, cnt["scn"], cnt["nontrivial"],
+               "as C04; the acceptor WriteStep of Padding.tla (model-checked equivalent to the generative rule) judges the "
+               "length of every transport write of every packet, the preamble event judges packet 0",
+               V.sample_descrs(run["descr"]), True,
+               dict(behaviours_generated=len(g["scenarios"]), behaviours_replayed=len(scs), trace_events=res["lines"],
+                    event_counts=cnt))
+    return cov, ["single caller: packet boundaries are flushes; concurrent writers are covered by C11",
+                 "draws are forced through the cfg-guarded hook only to visit range ends; the oracle stays range-based"]
+
+
+CHECKS = {"C03": check_C03, "C04": check_C04, "C05": check_C05}
